@@ -14,7 +14,9 @@ TEXT = {
     "V1": "subroutine a\n real :: sin\n x = sin(1.0)\nend subroutine a\n",
     "V2": "module m\n integer :: k\nend module m\nprogram p\n use m\n if (k > 0) then\n   k = abs(k)\n end if\nend program p\n",
     "V3": "x = 1\nend\n",
-    "V4": "program o\n open(unit=10, file='f.dat', status='old')\n allocate(w(2), stat=ierr)\n write(10, *) x\n stop 1\nend program o\n",
+    "V4": "program o\n open(unit=10, file='f.dat', status='old')\n allocate(w(2), stat=ierr)\n write(10, *) 'total: ', x ! report\n stop 1\nend program o\n",
+    # names that are intrinsic from Fortran 2008 on: references in a 2003 parse must not colour a later 2008 parse (and vice versa)
+    "V5": "subroutine g\n y = erf(x) + gamma(x) + shiftl(i, 2)\n print *, 'y = ', y ! show it\nend subroutine g\n",
     "I1": "subroutine a\n real :: cos\n @@ bad\nend subroutine a\n",
     "I2": "subroutine a\n real :: cos\n if (x) then\n end if wrong\nend subroutine a\n",
     "I3": "real :: cos\nx = 1\nif (x > 0) then\nend if wrong\nend\n",
@@ -29,6 +31,7 @@ PROBES = {
     "X2": "program q\n block\n integer :: i\n end block\n b2: block\n end block b2\n x = cos(y)\nend program q\n",
     "X3": "module a\n real :: cos\ncontains\n subroutine b\n y = cos(1.0) + sin(1.0)\n end subroutine b\nend module a\n",
     "X4": "program r\n open(newunit=u, file='f')\n error stop\n y = sin(x)\nend program r\n",
+    "X5": "subroutine g\n y = erf(x) + gamma(x) + shiftl(i, 2)\n print *, 'y = ', y ! show it\n write(10, *) 'total: ', x ! report\nend subroutine g\n",
 }
 
 
@@ -54,7 +57,7 @@ def session(case):
     return {"id": case["id"], "steps": steps}
 
 
-UNITS = {"V1": {"a"}, "V2": {"m", "p"}, "V3": {"fparser2:main_program"}, "V4": {"o"}}
+UNITS = {"V1": {"a"}, "V2": {"m", "p"}, "V3": {"fparser2:main_program"}, "V4": {"o"}, "V5": {"g"}}
 
 
 def failing_traces(case):
